@@ -207,12 +207,36 @@ class TypeGen:
 def wrap_module(tg, call_stmt, imports="import { defineComponent } from 'vue';\nimport type { SetupContext } from 'vue';\n", scope=None):
     before = "\n".join(tg.decls_before)
     after = "\n".join(tg.decls_after)
+    if scope not in (None, "namespace"):
+        before, after = before.replace("export type", "type").replace("export interface", "interface"), after.replace("export type", "type").replace("export interface", "interface")
     body = before + "\n" + call_stmt + "\n" + after + "\n"
     if scope == "function":
         body = "type A1 = { shadowedOuter: boolean };\nfunction scope() {\n" + body + "}\n"
     elif scope == "block":
         body = "{\n" + body + "}\n"
+    elif scope == "arrow":
+        body = "const create = () => {\n" + body + "};\n"
+    elif scope == "fnexpr":
+        body = "const create = function () {\n" + body + "};\n"
+    elif scope == "iife":
+        body = "(() => {\n" + body + "})();\n(function () { type A1 = { inIife: 1 }; })();\n"
+    elif scope == "callback":
+        body = "describe('x', () => {\n" + body + "});\n"
+    elif scope == "class-method":
+        body = "class Host { m() {\n" + body + "} static s = () => { type A1 = { inStatic: 1 }; }; }\n"
+    elif scope == "class-expr":
+        body = "const K = class { m() {\n" + body + "} };\n"
+    elif scope == "object-method":
+        body = "const o = { m() {\n" + body + "}, p: () => {\n type A1 = { inProp: 1 };\n} };\n"
+    elif scope == "default-param":
+        body = "function withDefault(cb = () => {\n" + body + "}) {}\n"
+    elif scope == "namespace":
+        body = "namespace NS {\n" + body + "}\n"
     return imports + "const userProps = {}, dflt = {}, k = 'foo', fn1 = () => 1;\n" + body
+
+
+SCOPES = [(None, 8), ("function", 2), ("block", 1), ("arrow", 1), ("fnexpr", 1), ("iife", 1), ("callback", 1), ("class-method", 1), ("class-expr", 1),
+          ("object-method", 1), ("default-param", 1), ("namespace", 1)]
 
 
 # ------------------------------------------------------------------------------------------------ C17 type expressions
@@ -232,7 +256,7 @@ class ExprGen:
         ch = [("atom", 6)]
         if d < 3:
             ch += [("union", 4), ("alias", 2), ("paren", 1), ("nonnull", 1), ("exclude", 1), ("extract", 1), ("index-array", 1), ("index-tuple", 1),
-                   ("index-prop", 1), ("intersection", 1), ("iface", 1)]
+                   ("index-prop", 1), ("index-member", 2), ("intersection", 1), ("iface", 1)]
         k = r.wpick(ch)
         self.tg.used["ty:" + k] += 1
         if k == "atom":
@@ -263,6 +287,16 @@ class ExprGen:
             return "[%s, %s]%s" % (self.expr(d + 1), self.expr(d + 1), r.pick(["[0]", "[1]", "[number]"]))
         if k == "index-prop":
             return "{ p: %s, q: number }%s" % (self.expr(d + 1), r.pick(["['p']", "['p' | 'q']", "[string]"]))
+        if k == "index-member":
+            # members of every kind (property, method, getter, optional method, call signature) selected by key
+            members = "onPick(id: number): void; label: string; get g(): %s; opt?(): void; p: %s; 'quoted-m'(): number" % (self.expr(d + 1), self.expr(d + 1))
+            idx = r.pick(["['onPick']", "['onPick' | 'label']", "[string]", "['g']", "['opt']", "['p' | 'onPick']", "['quoted-m']", "['label']"])
+            form = r.below(3)
+            if form == 0:
+                return "{ %s }%s" % (members, idx)
+            n = self.tg.fresh("H")
+            self.tg.place(("interface %s { %s }" if form == 1 else "type %s = { %s };") % (n, members))
+            return n + idx
         return "string"
 
 
@@ -278,7 +312,8 @@ def c16_case(r, i):
     tg = TypeGen(r)
     props = tg.random_map()
     ty = tg.encode(props)
-    scope = r.wpick([(None, 6), ("function", 2), ("block", 1)])
+    scope = r.wpick(SCOPES)
+    tg.used["scope:%s" % scope] += 1
     call = "const C%d = defineComponent((props: %s) => {});" % (i, ty)
     return wrap_module(tg, call, scope=scope), tg.used
 
@@ -404,4 +439,6 @@ def c19_case(r, i):
     ty = enc(evs)
     second = r.wpick([("ctx: SetupContext<%s>" % ty, 6), ("{ emit }: SetupContext<%s>" % ty, 2), ("ctx: { emit: any }", 1), ("ctx", 1)])
     call = "const C%d = defineComponent((props: { a: string }, %s) => {});" % (i, second)
-    return wrap_module(tg, call), tg.used
+    scope = r.wpick(SCOPES)
+    tg.used["scope:%s" % scope] += 1
+    return wrap_module(tg, call, scope=scope), tg.used
